@@ -136,6 +136,7 @@ class Interp:
         self.exit_subst = {}  # loop id -> {iv atom: Lin}
         self.ptr_class = {}  # mem atom -> 'TABLE' | 'DATA'
         self.iv_init = {}
+        self.ptr_args = set()
 
     # ------------------------------------------------------------------------------------------
     def unk(self, why):
@@ -414,44 +415,62 @@ class Interp:
     # memory
     # ------------------------------------------------------------------------------------------
     def root_of(self, addr):
-        """(rootatom, offset Lin) ; rootatom None when undetermined"""
-        cands = []
+        """(rootatom, offset Lin) ; rootatom None when undetermined.  The root is the single
+        pointer-valued atom with net coefficient +1 (differences of two pointers are sizes)."""
+        pos, neg = [], []
         for a, k in addr.t:
-            if k == 1 and a[0] in ("arg", "fresh", "alloca", "global"):
-                cands.append(a)
-            elif k == 1 and a[0] == "mem" and a in self.ptr_class:
-                cands.append(a)
-            elif k == 1 and a[0] == "alignup":
-                r, _ = self.root_of(a[1])
-                if r is not None:
-                    cands.append(a)
-            elif k == 1 and a[0] == "iv" and a in self.iv_init:
-                r, _ = self.root_of(self.iv_init[a])
-                if r is not None:
-                    cands.append(a)
-            elif k == 1 and a[0] == "gamma":
-                r1, _ = self.root_of(a[2])
-                r2, _ = self.root_of(a[3])
-                if r1 is not None and r1 == r2:
-                    cands.append(a)
-        if len(cands) == 1:
-            a = cands[0]
-            if a[0] == "alignup":
-                r, _ = self.root_of(a[1])
-                return r, None
-            if a[0] == "iv":
-                r, _ = self.root_of(self.iv_init[a])
-                return r, None
-            if a[0] == "gamma":
-                r, _ = self.root_of(a[2])
-                return r, None
-            return a, addr - atom(a)
-        if len(cands) > 1:
-            # pointer difference patterns (p - q + r): prefer arg/fresh/alloca over loaded pointers
-            strong = [a for a in cands if a[0] in ("arg", "fresh", "alloca", "global")]
+            if k not in (1, -1):
+                continue
+            if not self.pointer_like(a):
+                continue
+            (pos if k == 1 else neg).append(a)
+        # cancel pointer differences (p - q) of the same kind: they are byte counts
+        for q in neg:
+            for p_ in pos:
+                if p_[0] == q[0] and (p_[0] != "mem" or self.ptr_class.get(p_) == self.ptr_class.get(q)):
+                    pos.remove(p_)
+                    break
+            else:
+                return None, None
+        if len(pos) > 1:
+            strong = [a for a in pos if a[0] in ("arg", "fresh", "alloca", "global")]
             if len(strong) == 1:
-                return strong[0], addr - atom(strong[0])
-        return None, None
+                pos = strong
+        if len(pos) != 1:
+            return None, None
+        a = pos[0]
+        if a[0] == "alignup":
+            r, _ = self.root_of(a[1])
+            return r, None
+        if a[0] == "iv":
+            r, _ = self.root_of(self.iv_init[a])
+            return r, None
+        if a[0] == "gamma":
+            r, _ = self.root_of(a[2])
+            return r, None
+        return a, addr - atom(a)
+
+    def pointer_like(self, a):
+        k = a[0]
+        if k == "arg":
+            return a[1] in self.ptr_args
+        if k in ("fresh", "alloca", "global"):
+            return k != "fresh" or (len(a) > 2 and a[2] == "alloc")
+        if k == "mem":
+            return a in self.ptr_class
+        if k == "alignup":
+            r, _ = self.root_of(a[1])
+            return r is not None
+        if k == "iv":
+            if a not in self.iv_init:
+                return False
+            r, _ = self.root_of(self.iv_init[a])
+            return r is not None
+        if k == "gamma":
+            r1, _ = self.root_of(a[2])
+            r2, _ = self.root_of(a[3])
+            return r1 is not None and r1 == r2
+        return False
 
     def region_of(self, addr):
         r, _ = self.root_of(addr)
@@ -504,14 +523,26 @@ class Interp:
         reg = self.region_of(addr)
         if reg in mem.havoc:
             return self.unk("load from havoced region %s" % (reg,))
+        aliases = []
         for (a2, s2), v in mem.w.items():
             if self.may_overlap(addr, size, a2, s2, reg):
                 d = (addr - a2).const()
                 if d is None:
-                    # same region, symbolic distance.  OBJ fields: distinct constant offsets never
-                    # reach here; TABLE/DATA: cannot decide
+                    # same region, symbolic distance.  In the address TABLE every access is an aligned
+                    # 8-byte slot, so two accesses either coincide or are disjoint: value is
+                    # γ(addr == a2, stored, underneath).  DATA: cannot decide.
+                    if reg[0] == "TABLE" and size == 8 and s2 == 8:
+                        aliases.append((a2, v))
+                        continue
                     return self.unk("load %s may alias earlier store %s" % (show(addr), show(a2)))
                 return self.unk("partial overlap")
+        if aliases:
+            m2 = Mem({k: v for k, v in mem.w.items() if k[0] not in [a for a, _ in aliases]}, mem.segs, mem.bulk,
+                     mem.havoc, mem.lsegs)
+            base = self.load(m2, addr, size, ty, inst)
+            for a2, v in aliases:
+                base = mk_gamma(c_cmp("eq", addr, a2), v, base)
+            return base
         for sg in mem.segs:
             if self.regions_disjoint(reg, sg.region):
                 continue
@@ -781,8 +812,11 @@ class Interp:
     def run(self):
         f = self.fn
         self.analyse_cfg()
+        self.ptr_args = set()
         for i, (ty, name, attrs) in enumerate(f.params):
             self.env[name] = atom(("arg", i))
+            if ty.kind == "ptr":
+                self.ptr_args.add(i)
         # DAG order (ignoring back edges)
         order = self.dag_order(set(self.rpo), f.order[0])
         self.process_blocks(order, None)
@@ -1122,10 +1156,10 @@ class Interp:
                 return self.unk(name)
             raise IRUnsupported("intrinsic %s" % name)
         fdef = self.mod.functions.get(name)
-        if fdef is not None and not fdef.is_decl:
-            raise IRUnsupported("call to defined function %s was not inlined (in %s)" % (name, self.fn.name))
         cls = self.classify_call(name)
         kind = cls["kind"]
+        if fdef is not None and not fdef.is_decl and kind != "TERMINATE":
+            raise IRUnsupported("call to defined function %s was not inlined (in %s)" % (name, self.fn.name))
         unwinds = (ins.op == "invoke")
         if kind == "IGNORE":
             return None
